@@ -297,6 +297,21 @@ func (w *World) exposedCell(fn *ssa.Function, addr ssa.Value) (bool, string) {
 						}
 					}
 				}
+				// … or assigns it to a result / local that is returned (`err = c.err`)
+				if ld, isLd := in.(*ssa.UnOp); isLd && ld.Op == token.MUL && isErrorType(ld.Type()) {
+					if _, ok := isLoadOfField(ld, st.Obj().Name(), name); ok && ld.Referrers() != nil {
+						for _, u := range *ld.Referrers() {
+							switch y := u.(type) {
+							case *ssa.Phi:
+								found = true
+							case *ssa.Store:
+								if _, isAl := y.Addr.(*ssa.Alloc); isAl && y.Val == ssa.Value(ld) {
+									found = true
+								}
+							}
+						}
+					}
+				}
 			})
 			if found {
 				return true, fmt.Sprintf("field %s.%s exposed by %s", st.Obj().Name(), name, w.Name(g))
@@ -407,6 +422,13 @@ func (w *World) checkErrorFlow(r *Report, rule string, fc FCall) {
 		return true, true
 	}
 	wk.OnBackEdge = func(env *Env, from, to *ssa.BasicBlock, trail []*ssa.BasicBlock) bool {
+		// a loop whose condition tests the error (`for err == nil && … { …; x, err = f() }`)
+		// reports it right after the back edge: one back edge is followed, and the forced
+		// non-nil arm of the header's test must then leave the loop
+		if !env.flags["back-edge-taken"] {
+			env.flags["back-edge-taken"] = true
+			return false
+		}
 		fail(fmt.Sprintf("control continues around a loop (block %d → %d) with the error of %s still unreported", from.Index, to.Index, fc.Callee), from.Instrs[len(from.Instrs)-1], trail)
 		return true
 	}
